@@ -1,5 +1,6 @@
 import OjgVerif.Asm.LemmasOrder
 import OjgVerif.Asm.LemmasPrint
+import OjgVerif.Asm.LemmasNum
 import OjgVerif.Gen.AsmFacts
 /-! # C20 — assembly plans evaluate totally, deterministically and as documented
 
@@ -336,6 +337,37 @@ theorem cond_list_deviation :
     (eval ⟨{ Dev.current with condListNil := false }, none⟩ .null 3 plan .null h).1 = .ok (.aref 1) := by
   decide
 
+/-- closed form: the sum of int64 arguments is the mathematical sum wrapped once (the running int64
+accumulator of the code loses nothing more than that) -/
+theorem sum_ints (x : Int) (xs : List Int) (hx : inInt64 x) :
+    Spec.sum ((x :: xs).map .int) = .ok (.int (wrap64 (x + xs.sum))) := by
+  simp only [List.map, Spec.sum]
+  rw [← wrap64_of_inInt64 hx, foldAdd_ints xs x, wrap64_of_inInt64 hx]
+
+/-- closed form: `dif` of int64 arguments is first − (sum of the rest), wrapped once -/
+theorem dif_ints (dev : Dev) (x : Int) (xs : List Int) (hx : inInt64 x) :
+    Spec.arith dev .dif ((x :: xs).map .int) = .ok (.int (wrap64 (x - xs.sum))) := by
+  simp only [List.map, Spec.arith, Val.isNum, if_true]
+  rw [← wrap64_of_inInt64 hx, foldDif_ints dev xs x, wrap64_of_inInt64 hx]
+
+example : Spec.sum [.int 9223372036854775807, .int 1] = .ok (.int (-9223372036854775808)) := by decide
+
+/-- "each argument is less than any subsequent argument": for integers compared exactly (the documented
+comparison) the neighbour chain the code walks is true exactly when ALL pairs are in order -/
+theorem lt_ints_pairwise (dev : Dev) (hd : dev.cmpFloat = false) (x : Int) (xs : List Int) :
+    Spec.cmp dev .lt ((x :: xs).map .int) = .ok (.bool true) ↔ (x :: xs).Pairwise (· < ·) := by
+  have hx : Spec.numOf dev (.int x) = some (exactFlt x) := by simp [Spec.numOf, asFloat, hd, exactFlt]
+  simp only [List.map, Spec.cmp, hx, numChain_lt_ints dev hd xs x]
+  rw [← intChain_pairwise xs x]
+  constructor
+  · intro h; injection h with h; injection h
+  · intro h; rw [h]
+
+/-- not so through float64: 2^53 < 2^53+1 < 2^53+2, but the chain over the rounded values fails at the
+first step although a chain over other roundings passes where a pair is out of order -/
+example : Spec.cmp Dev.current .lt [.int 9007199254740992, .int 9007199254740993, .int 9007199254740994] = .ok (.bool false) := by
+  decide
+
 /-- get/getall/set/setall/del/delall with a path argument, `cond`, `asm`, `each`: the evaluator computes
 the specification's function of the path, the evaluated value arguments and the sub-plans' meanings -/
 theorem get_spec (env : Env) (e : Arg → M Val) (root at_ : Val) (p : Path) (h : Heap) :
@@ -503,6 +535,6 @@ example :
                             .arr [.str b!"get", .str b!"$.src.l[-1]"]]
     ∃ p, newPlan 9 src = some p ∧ pathsRoundTrip 10 p = true ∧
       simplify 10 p = .arr (.str b!"asm" :: src) := by
-  exact ⟨_, rfl, by decide, by decide⟩
+  exact ⟨_, rfl, by decide, rfl⟩
 
 end OjgVerif.C20
